@@ -141,6 +141,8 @@ def _err_kind(msg):
     m = _SURR.search(msg)
     if m and msg.startswith("'utf-8' codec"):
         return 'Surrogate ' + _b(int(m.group(1), 16))
+    if msg == 'Integer literal too large':
+        return 'IntTooLarge'
     if msg == 'Unclosed character literal':
         return 'UnclosedChar'
     if msg == 'Unclosed string literal':
@@ -191,12 +193,8 @@ def impl_lex_raw(text):
             outcome = 'ERR %s ?context=%r' % (_err_kind(str(e)), ctx)
         else:
             outcome = 'ERR %s %d %d' % (_err_kind(str(e)), ctx[0].line, ctx[0].col)
-    except OverflowError:
-        outcome = 'CRASH OverflowChr'
     except UnicodeEncodeError:
         outcome = 'CRASH EncodeRaw'
-    except ValueError as e:
-        outcome = 'CRASH IntDigits' if 'Exceeds the limit' in str(e) else 'CRASH ValueError<%s>' % e
     except Exception as e:      # anything else is a disagreement by construction
         outcome = 'CRASH %s<%s>' % (type(e).__name__, e)
     return out, outcome
